@@ -175,8 +175,11 @@ class Bes3CgemClusterColReader : public IReader {
             {
                 switch ( fNBytes )
                 {
-                case 96: m_version = 0; break;
-                case 88: m_version = 1; break;
+                // +2: the TObject carries kIsReferenced and is followed by a 2-byte pidf
+                case 96:
+                case 98: m_version = 0; break;
+                case 88:
+                case 90: m_version = 1; break;
                 default:
                     throw std::runtime_error( "Unknown TCgemCluster version with fNBytes=" +
                                               std::to_string( fNBytes ) );
